@@ -286,7 +286,7 @@ namespace igris
         {
             *(p++) = '-';
             p1++;
-            ud = -num;
+            ud = 0 - (uint64_t)num;
         }
         else
         {
